@@ -8,7 +8,7 @@
 (*                                                                         *)
 (*   head    : 0 (empty) | node id (top of the callback list) | SEALED     *)
 (*   nx      : node id -> next node id (non-atomic field of a node)        *)
-(*   futex   : number of registered waiters (+ READY once published)       *)
+(*   futex   : "somebody waits" flag (bit 0) (+ READY once published)        *)
 (*   val     : the non-atomic value cell (constructed / content in H)      *)
 (*   count   : CountDownLatch::_count                                      *)
 (*   now     : virtual clock (jumps to the deadline of the timer fired)    *)
@@ -21,8 +21,9 @@ EXTENDS Naturals, Integers, Sequences, FiniteSets, TLC, WeakMem
 
 CONSTANTS Stale,   \* BOOLEAN: loads may read non-latest messages
           Configs  \* set of configurations [mode, count, spur, fx0, prog]
-                   \* (spur: compare_exchange_weak may fail spuriously;  fx0: initial futex word = waiters registered
-                   \*  by earlier slow-path get / wait_for calls -- the counter is never decremented)
+                   \* (spur: compare_exchange_weak may fail spuriously;  fx0: initial futex word -- regression family for
+                   \*  the repaired defect c8a8a14: a waiter COUNTER next to the READY bit carried into it; waiters now
+                   \*  set a flag with fetch_or, so a word just below READY stays below READY)
 
 VARIABLES cfg, ms, pc, L, H, nx, now, ev
 
@@ -38,6 +39,7 @@ ValCell == <<"val", 0>>
 NodeCell(id) == <<"node", id>>
 
 IsReady(w) == w >= READY
+Or1(w) == IF w % 2 = 0 THEN w + 1 ELSE w      \* w | 1
 Max0(x) == IF x > 0 THEN x ELSE 0
 
 Thr == 1..Len(cfg.prog)
@@ -261,7 +263,7 @@ OfCas(t, M(_)) ==
 GLoad(t, M(_)) ==
   /\ pc[t] = "g_load"
   /\ DoLoad(t, FutexLoc, "get_futex_load", M,
-            LAMBDA v : UNCHANGED L /\ Goto(t, IF IsReady(v) THEN "g_read" ELSE "w_faa"))
+            LAMBDA v : UNCHANGED L /\ Goto(t, IF IsReady(v) THEN "g_read" ELSE "w_reg"))
   /\ UNCHANGED <<cfg, H, nx, now>>
 
 WfLoad(t, M(_)) ==
@@ -276,17 +278,17 @@ WfClk0(t) ==
   /\ pc[t] = "wf_clk0"
   /\ ev' = [NoEv EXCEPT !.t = t, !.k = "clock", !.v = now]
   /\ SetL(t, [L[t] EXCEPT !.until = now + Max0(Op(t).n), !.rem = Max0(Op(t).n)])
-  /\ Goto(t, "w_faa")
+  /\ Goto(t, "w_reg")
   /\ UNCHANGED <<cfg, ms, H, nx, now>>
 
-\* register as waiter
-WFaa(t, M(_)) ==
-  /\ pc[t] = "w_faa"
-  /\ DoRmw(t, FutexLoc, "faa", LAMBDA o : o + 1, 1, L[t].wk \o "_waiter_faa", M,
-           LAMBDA old : IF IsReady(old + 1)
-                        THEN IF L[t].timed THEN SetL(t, [L[t] EXCEPT !.seen = old + 1, !.res = 1]) /\ Goto(t, "ret")
-                             ELSE SetL(t, [L[t] EXCEPT !.seen = old + 1]) /\ Goto(t, "g_read")
-                        ELSE SetL(t, [L[t] EXCEPT !.seen = old + 1]) /\ Goto(t, "w_fwait"))
+\* register as waiter:  value = _futex.fetch_or(1) | 1
+WReg(t, M(_)) ==
+  /\ pc[t] = "w_reg"
+  /\ DoRmw(t, FutexLoc, "for", LAMBDA o : Or1(o), 1, L[t].wk \o "_waiter_for", M,
+           LAMBDA old : IF IsReady(Or1(old))
+                        THEN IF L[t].timed THEN SetL(t, [L[t] EXCEPT !.seen = Or1(old), !.res = 1]) /\ Goto(t, "ret")
+                             ELSE SetL(t, [L[t] EXCEPT !.seen = Or1(old)]) /\ Goto(t, "g_read")
+                        ELSE SetL(t, [L[t] EXCEPT !.seen = Or1(old)]) /\ Goto(t, "w_fwait"))
   /\ UNCHANGED <<cfg, H, nx, now>>
 
 \* futex_wait(value, timeout): the kernel compares the word with the expected value atomically
@@ -376,7 +378,7 @@ SlSleep(t) ==
 (***************************************************************************)
 Step(t, M(_)) ==
   \/ (Call(t) \/ Ret(t) \/ CbBegin(t) \/ CbEnd(t))
-  \/ SvRLoad(t, M) \/ SvSeal(t, M) \/ SvFx(t, M) \/ OfLoad(t, M) \/ OfCas(t, M) \/ GLoad(t, M) \/ WfLoad(t, M) \/ WFaa(t, M)
+  \/ SvRLoad(t, M) \/ SvSeal(t, M) \/ SvFx(t, M) \/ OfLoad(t, M) \/ OfCas(t, M) \/ GLoad(t, M) \/ WfLoad(t, M) \/ WReg(t, M)
   \/ WReload(t, M) \/ RdLoad(t, M) \/ CdFsub(t, M)
   \/ SvCons(t) \/ SvWake(t) \/ WfClk0(t) \/ WFutexWait(t) \/ WFutexRet(t) \/ WTimeout(t) \/ WClk1(t) \/ GRead(t) \/ SlSleep(t)
 
